@@ -883,6 +883,14 @@ func init() {
 		rng := gen.NewRng(cfg.Seed, 11)
 		genDfPairs(rng, tiered(cfg, 3, 4), tiered(cfg, 60000, 1500000), tiered(cfg, 80000, 1500000), emit)
 	}})
+	add(&Property{ID: "C14", Fields: fields("P", "S", "G", "PG", "PP", "J"), Spec: noSpec, Generate: func(cfg RunConfig, emit func(Case)) {
+		// the sequential baseline of the session check is what is tied to the model here
+		rng := gen.NewRng(cfg.Seed, 14)
+		genTrees(rng, tiered(cfg, 40000, 600000), 4, func(c Case) { c.Want = ""; c.Kind = "q"; c.DF = gen.Pick(rng, []string{"", "", "", "df"}); emit(c) })
+		for i := 0; i < tiered(cfg, 20000, 300000); i++ {
+			emit(Case{Gen: "G4-fieldquery", Kind: "q", S: gen.FieldQuery(rng), DF: gen.Pick(rng, []string{"", "df"}), Idx: i})
+		}
+	}})
 	add(&Property{ID: "C13", Fields: fields("U", "V", "S", "G", "J", "R", "RP"), Spec: specC13, Generate: func(cfg RunConfig, emit func(Case)) {
 		rng := gen.NewRng(cfg.Seed, 13)
 		genJSONDocs(rng, tiered(cfg, 150000, 3000000), emit)
